@@ -1,7 +1,8 @@
 // Stages of the sqlite harness.
-//   plan    real differ + planner on spec-built graphs  vs  PlanModel (change list, statement/reverse skeleton)
-//   engine  real go-sqlite3 executing Atlas' SQL         vs  EngineModel/InspectModel (inspect before/after, rows)
-//           + the C01 oracle on the real observations
+//
+//	plan    real differ + planner on spec-built graphs  vs  PlanModel (change list, statement/reverse skeleton)
+//	engine  real go-sqlite3 executing Atlas' SQL         vs  EngineModel/InspectModel (inspect before/after, rows)
+//	        + the C01 oracle on the real observations
 package main
 
 import (
@@ -340,12 +341,13 @@ func simpleDefaults(s Schema) bool {
 }
 
 type engineOpts struct {
-	inspected  bool // the desired state is the InspectSchema of a real database created from the spec (numeric fk symbols, ...), not a graph built from the spec
-	updown     bool // after the up run, execute the reverse statements of a reversible plan (mode updown)
-	file, fk   bool
-	rows       []rowSpec
-	withModel  bool // write a model case (else oracle only)
-	viaAtlas   bool // create A through Atlas' own plan from the empty schema (no uniques then)
+	inspected         bool // the desired state is the InspectSchema of a real database created from the spec (numeric fk symbols, ...), not a graph built from the spec
+	updown            bool // after the up run, execute the reverse statements of a reversible plan (mode updown)
+	file, fk          bool
+	rows              []rowSpec
+	withModel         bool // write a model case (else oracle only)
+	viaAtlas          bool // create A through Atlas' own plan from the empty schema (no uniques then)
+	viaAtlasInspected bool // ... and the desired state of that first apply is the inspected form of A (numeric fk symbols become constraint names)
 }
 
 // engineCase runs one (A, B) pair on a real database; returns false when the case was unusable.
@@ -410,7 +412,15 @@ func (c *ctx) engineCase(a, b Schema, desc string, o engineOpts) {
 	// setup
 	setupErr := error(nil)
 	if o.viaAtlas {
-		cs, err, _ := diffReal(schema.New("main"), build("sqlite", a))
+		first := build("sqlite", a)
+		if o.viaAtlasInspected {
+			g, err := inspectedDesired(a)
+			if err != nil {
+				panic(fmt.Sprintf("harness: current spec is not valid SQLite: %v", err))
+			}
+			first = g
+		}
+		cs, err, _ := diffReal(schema.New("main"), first)
 		if err == nil {
 			err = l.drv.ApplyChanges(bg, cs)
 		}
@@ -439,6 +449,9 @@ func (c *ctx) engineCase(a, b Schema, desc string, o engineOpts) {
 	ic := "input-class=" + classifyFor(a, b, o.inspected) + "; "
 	for _, r := range o.rows {
 		if err := l.exec(insertSQL(r, *a.table(r.table))); err != nil {
+			if !o.withModel && rowError(err) {
+				continue // e.g. a UNIQUE expression index all generated rows collide on: the row is left out
+			}
 			panic(fmt.Sprintf("harness: insert failed: %v (%s)", err, insertSQL(r, *a.table(r.table))))
 		}
 	}
@@ -640,9 +653,11 @@ func runEngine(c *ctx) {
 			d += "+uniques"
 		}
 		if c.r.Chance(1, 3) && simpleDefaults(b) && !strings.Contains(d, "mod-col-type") && d != "unrelated" {
+			noNull = aliasCols(b)
 			for _, t := range a.Tables {
 				o.rows = append(o.rows, genRows(c.g, t)...)
 			}
+			noNull = nil
 			if len(o.rows) > 0 {
 				d += "+rows"
 			}
@@ -690,7 +705,7 @@ func runOracle(c *ctx) {
 	}
 	// unnamed foreign keys, desired state as inspected (numeric symbols)
 	for i, fc := range fkGrid(c.thorough) {
-		c.engineCase(fc.a, fc.b, fc.desc, engineOpts{inspected: true, file: i%4 == 0, fk: i%2 == 0, viaAtlas: i%3 == 1})
+		c.engineCase(fc.a, fc.b, fc.desc, engineOpts{inspected: true, file: i%4 == 0, fk: i%2 == 0, viaAtlas: i%3 != 0, viaAtlasInspected: i%3 == 2})
 	}
 	// populated tables x a single edit of the ALTER path or of its border (what alterable() must send to the rebuild)
 	border := map[string]bool{"add-col-nonconst-default": true, "add-col-null": true, "add-col-notnull-default": true,
@@ -773,9 +788,11 @@ func runUpDown(c *ctx) {
 		}
 		o := engineOpts{updown: true, file: c.r.Chance(1, 3), fk: c.r.Bool(), withModel: true, viaAtlas: c.r.Chance(1, 3)}
 		if c.r.Chance(1, 3) && simpleDefaults(b) && !strings.Contains(d, "mod-col-type") && d != "unrelated" {
+			noNull = aliasCols(b)
 			for _, t := range a.Tables {
 				o.rows = append(o.rows, genRows(c.g, t)...)
 			}
+			noNull = nil
 		}
 		c.engineCase(a, b, d, o)
 	}
